@@ -57,7 +57,7 @@ Inductive stmt :=
 | SCls (ln dln eln : nat) (name : string) (decos : list deco) (body : list stmt)
 | SAssign (ln eln : nat) (targets : list target) (all_items : list string)
 | SAnn (ln eln : nat) (t : target) (has_value classvar : bool) (all_items : list string)
-| SAugAll (items : list string)                          (* __all__ += ... *)
+| SAugAll (items : list string)                          (* __all__ += ... / __all__.extend(...) / __all__.append(.) *)
 | SImport (ln eln : nat) (names : list (string * string))
 | SImportFrom (ln eln : nat) (names : list impname)
 | SIf (tc : bool) (body orelse : list stmt)              (* tc: the test reads TYPE_CHECKING / typing.TYPE_CHECKING *)
@@ -282,7 +282,10 @@ Fixpoint op_importfrom (g : bool) (ln eln : nat) (names : list impname) (f : fra
         (f3, EvAlias an ln (fpath f) (frame_pfun f) :: evs)
   end.
 
-(* visit_augassign: only on a module, only when exports is already a list (else AttributeError, suppressed) *)
+(* visit_augassign (`__all__ += x`) and visit_expr (`__all__.extend(x)`, `__all__.append(x)`): only on a module
+   (Visitor.current, so also inside the if / try / loop blocks of the module, never in a class or an __init__ body), only
+   when exports is already a list (else AttributeError, suppressed: an extension before any `__all__ = ...` is lost),
+   only when every item is a string or a name (else AttributeError on <item>.name, suppressed, nothing added) *)
 Definition op_augall (items : list string) (f : frame) : frame :=
   match fkind f, fexports f with
   | InModule, Some ex => if items_ok items then set_exports f (Some (ex ++ items)) else f
